@@ -52,12 +52,13 @@ def state_conds(fv, bi, brs=None):
     Independent of whether the handler is written as a match, as guard clauses or with a hoisted flag.  Falls back to the
     dominating guards when the function has too many paths."""
     from ..paths import enumerate_paths, PathLimit
-    if fv.key not in _PATHS:
+    pk = (fv.key, fv.entry)
+    if pk not in _PATHS:
         try:
-            _PATHS[fv.key] = enumerate_paths(fv, Renderer(fv), max_paths=4000)
+            _PATHS[pk] = enumerate_paths(fv, Renderer(fv), max_paths=4000)
         except PathLimit:
-            _PATHS[fv.key] = None
-    paths = _PATHS[fv.key]
+            _PATHS[pk] = None
+    paths = _PATHS[pk]
     if paths is None:
         return _state_conds_guards(fv, bi, brs)
     out = set()
@@ -103,6 +104,67 @@ def _state_conds_guards(fv, bi, brs=None):
     return allowed
 
 
+DISPATCH_INPUT = {"Connected": "on_connected", "MessageReceived": "on_message", "KeepaliveTimerExpired": "on_keepalive_timer_expired", "HoldTimerExpired": "on_hold_timer_expired",
+                  "Disconnected": "on_disconnected", "AdminShutdown": "on_admin_shutdown", "UpdateSent": "on_update_sent"}
+DISPATCH_MSG = {"Open": "on_open", "Keepalive": "on_keepalive", "Update": "on_update", "Notification": "on_notification", "RouteRefresh": "on_route_refresh"}
+
+
+class _Slice:
+    """The part of a dispatcher's body behind one arm, presented like the body of the handler that used to be called there
+    (a maintainer may inline `on_x` into `Connection::process`; the rules keep reading 'the handler of X')."""
+
+
+def handler_view(prog, m):
+    """FnView of Connection::<m>; if that method no longer exists, the slice of the dispatcher arm that handles the same
+    input (Connection::process on fsm::Input, on_message / process on bgp::Message)."""
+    import copy
+    ks = prog.find(re.escape(CONN + m))
+    if ks:
+        return view(prog, ks[0])
+    inv_i = {v: k for k, v in DISPATCH_INPUT.items()}
+    inv_m = {v: k for k, v in DISPATCH_MSG.items()}
+    cands = []
+    if m in inv_m:
+        cands += [(CONN + "on_message", "bgp::Message", inv_m[m]), (CONN + "process", "bgp::Message", inv_m[m])]
+    if m in inv_i:
+        cands += [(CONN + "process", "fsm::Input", inv_i[m])]
+    for host, enum_rx, variant in cands:
+        hk = prog.find(re.escape(host))
+        if not hk:
+            continue
+        fv = view(prog, hk[0])
+        for bb, br in branches(fv).items():
+            if br.expr[0] == "discr" and br.adt and br.adt.endswith(enum_rx):
+                for v, tgt in br.cases:
+                    if br.label(prog, v) == variant:
+                        sv = copy.copy(fv)
+                        sv.entry = tgt
+                        sv.live = fv._reach_from(tgt, set(), set())
+                        sv._dom = sv._pdom = None
+                        sv.name = CONN + m
+                        sv.sliced_from = fv.name
+                        return sv
+    raise __import__("analysis.facts", fromlist=["AnchorError"]).AnchorError("anchor %r matched 0 functions and no dispatcher arm handles it" % (CONN + m))
+
+
+def handler_name(prog, fv, bi):
+    """Name of the Connection handler a site belongs to: the enclosing method, or for a site inside a dispatcher
+    (process / on_message) the handler its arm stands for."""
+    rn = root_name(prog, fv.key)
+    meth = rn.split("::")[-1]
+    if not rn.startswith(CONN) or meth not in ("process", "on_message"):
+        return rn
+    out = rn
+    for g, labels, how in flat_guards(fv, bi):
+        if g[0] == "discr" and g[2] and len(labels) == 1:
+            lab = next(iter(labels))
+            if g[2].endswith("bgp::Message") and lab in DISPATCH_MSG:
+                return CONN + DISPATCH_MSG[lab]
+            if g[2].endswith("fsm::Input") and lab in DISPATCH_INPUT:
+                out = CONN + DISPATCH_INPUT[lab]
+    return out
+
+
 def outputs_in(fv):
     """[(block, variant, stmt)] for fsm::Output aggregates."""
     return [(bi, s["rv"]["v"], s) for bi, si, s in fv.aggregates(OUT)]
@@ -135,8 +197,8 @@ def check_connection(prog, r):
             if "Connection" not in base_ty:
                 continue
             v = e[2] if e[0] == "agg" else (e[3] if e[0] == "const" else None)
-            got.setdefault(root_name(prog, k), set()).add(v)
-            sites.setdefault(root_name(prog, k), []).append((fv, bi, v))
+            got.setdefault(handler_name(prog, fv, bi), set()).add(v)
+            sites.setdefault(handler_name(prog, fv, bi), []).append((fv, bi, v))
         for bi, si, s in fv.aggregates(re.compile(r"rustybgpd::fsm::Connection")):
             op = agg_field(s, "state")
             if op is not None:
@@ -177,7 +239,7 @@ def check_connection(prog, r):
     accepted = {"on_open": {"OpenSent"}, "on_keepalive": {"OpenConfirm", "Established"}, "on_update": {"Established"}, "on_route_refresh": {"Established"}}
     normal = {"SendMessage", "SetKeepaliveTimer", "SetHoldTimer", "SessionNegotiated", "SessionEstablished", "RouteRefresh", "StateChanged"}
     for m, acc in accepted.items():
-        fv = view(prog, prog.one(re.escape(CONN + m)))
+        fv = handler_view(prog, m)
         r.analysed(fv.name)
         brs = branches(fv)
         n_err = 0
@@ -207,7 +269,7 @@ def check_connection(prog, r):
             r.fail(fv.name, "no-fsm-error", "%s has no FsmUnexpectedState teardown for unacceptable states" % m, fv.loc())
     # --- unconditional teardown handlers
     for m, reason in (("on_notification", "RemoteNotification"), ("on_disconnected", "IoError"), ("on_admin_shutdown", "AdminShutdown")):
-        fv = view(prog, prog.one(re.escape(CONN + m)))
+        fv = handler_view(prog, m)
         r.analysed(fv.name)
         downs = [(bi, s) for bi, v, s in outputs_in(fv) if v == "SessionDown"]
         ok = False
@@ -219,7 +281,7 @@ def check_connection(prog, r):
             r.ok("%s: SessionDown(%s) on every path" % (m, reason))
         else:
             r.fail(fv.name, "teardown-missing", "%s does not yield SessionDown(%s) on every path" % (m, reason), fv.loc())
-    fv = view(prog, prog.one(re.escape(CONN + "on_hold_timer_expired")))
+    fv = handler_view(prog, "on_hold_timer_expired")
     r.analysed(fv.name)
     sts = set()
     for bi, v, s in outputs_in(fv):
@@ -234,8 +296,16 @@ def check_connection(prog, r):
     for fn, enum_rx, table in ((CONN + "process", "fsm::Input", {"Connected": "on_connected", "MessageReceived": "on_message", "KeepaliveTimerExpired": "on_keepalive_timer_expired",
                                                                   "HoldTimerExpired": "on_hold_timer_expired", "Disconnected": "on_disconnected", "AdminShutdown": "on_admin_shutdown", "UpdateSent": "on_update_sent"}),
                                (CONN + "on_message", "bgp::Message", {"Open": "on_open", "Keepalive": "on_keepalive", "Update": "on_update", "Notification": "on_notification", "RouteRefresh": "on_route_refresh"})):
+        if not prog.find(re.escape(fn)):
+            continue        # the sub-dispatcher itself was inlined into process: its arms are read through handler_view
         fv = view(prog, prog.one(re.escape(fn)))
         r.analysed(fv.name)
+        # handlers that were inlined into the dispatcher have no call: their variant must still have an arm of its own
+        arms_ = set()
+        for bb_, br_ in branches(fv).items():
+            if br_.expr[0] == "discr" and br_.adt and br_.adt.endswith(enum_rx):
+                arms_ |= {br_.label(prog, v_) for v_, _t in br_.cases}
+        table = {k_: v_ for k_, v_ in table.items() if prog.find(re.escape(CONN + v_)) or k_ not in arms_}
         got = {}
         for bi, t in fv.calls(re.compile(re.escape(CONN) + r"\w+")):
             h = t["f"]["name"].split("::")[-1]
@@ -243,6 +313,7 @@ def check_connection(prog, r):
                 if g[0] == "discr" and g[2] and g[2].endswith(enum_rx):
                     for l in labels:
                         got[l] = h
+        got = {k_: v_ for k_, v_ in got.items() if k_ in table}        # arms whose handler was inlined call deeper handlers: not this table's business
         if got == table:
             r.ok("%s dispatch: %d variants -> handlers" % (short(fn), len(table)))
         else:
